@@ -19,6 +19,7 @@ type State struct {
 	defers []deferred
 	boxed  map[types.Object]bool
 	dead   bool
+	names  map[string]string // term -> name of the constant defined equal to it on this path
 }
 
 type deferred struct {
@@ -40,6 +41,12 @@ func (s *State) clone() *State {
 	n.heap = make(map[string]string, len(s.heap))
 	for k, v := range s.heap {
 		n.heap[k] = v
+	}
+	if s.names != nil {
+		n.names = make(map[string]string, len(s.names))
+		for k, v := range s.names {
+			n.names[k] = v
+		}
 	}
 	n.pc = append([]string(nil), s.pc...)
 	n.guards = append([]string(nil), s.guards...)
@@ -79,6 +86,7 @@ type Obl struct {
 	Model   string
 	Output  string
 	Checked []string // solvers that returned unsat (thorough cross-check)
+	NoPre   bool     // skip skolemisation/instantiation pre-processing
 	Expect  string   // "unsat" (default, goal must be valid) or "sat" (vacuity guards)
 }
 
@@ -107,6 +115,7 @@ func mergeStates(d *Decls, states []*State) *State {
 	res := live[0].clone()
 	res.pc = append([]string(nil), live[0].pc[:n]...)
 	res.guards = nil
+	res.names = nil // names defined inside one branch are not defined on the others
 	extra := make([][]string, len(live))
 	for i, s := range live {
 		extra[i] = append([]string(nil), s.pc[n:]...)
